@@ -406,7 +406,11 @@ def main():
         log(f"KNOWN-FINDING: property={prop} {k['what']}")
     if tot("unknown_n"):
         log(f"note: {tot('unknown_n')} obligation(s) undischarged (solver timeout), reported in the evidence")
+    shown = {}
     for e, path in violations:
+        shown[e["label"]] = shown.get(e["label"], 0) + 1
+        if shown[e["label"]] > 3:
+            continue
         log(f"counterexample: {e['scenario']} {e['label']} [{e['detail']}] {json.dumps(e['assignment'])}")
         log(f"VIOLATION property={prop} replay={path}")
     if violations:
